@@ -797,7 +797,9 @@ fn start_watchdog(limit_ms: u64) {
             std::thread::sleep(std::time::Duration::from_millis(500));
             let g = CURRENT.lock().unwrap();
             for slot in g.iter().flatten() {
-                if now_ms().saturating_sub(slot.3) > limit_ms {
+                // backtracking lexers are legitimately quadratic on pumped inputs: give long inputs longer
+                let limit = if slot.1.len() > 1000 { limit_ms * 10 } else { limit_ms };
+                if now_ms().saturating_sub(slot.3) > limit {
                     println!("{}", json!({"hang": {"lexer": slot.0, "input": slot.1.chars().take(200).collect::<String>(), "input_len": slot.1.len(), "script_raw": slot.2}}));
                     std::process::exit(3);
                 }
